@@ -190,6 +190,13 @@ def Rd.slice : Rd Bytes where
 def deserialize (strict : Bool) (t : Ty) (bs : Bytes) : Out (Val × Bytes) :=
   de Rd.slice strict t bs
 
+/-- successive `deserialize` calls on one buffer -/
+def deserializeMany (strict : Bool) : List Ty → Bytes → Out (List Val × Bytes)
+  | [], bs => .ok ([], bs)
+  | t :: ts, bs =>
+    (deserialize strict t bs).bind fun r =>
+      (deserializeMany strict ts r.2).map fun q => (r.1 :: q.1, q.2)
+
 /-- `from_slice` / `try_from_slice` -/
 def fromSlice (strict : Bool) (t : Ty) (bs : Bytes) : Out Val :=
   (deserialize strict t bs).bind fun r =>
